@@ -16,6 +16,10 @@ def histories(ctx):
     H["flat-2gen"] = ops.build(ctx, T, [c("", ["xxh64"]), c("", ["md5"])], expect=[0, 0])
     H["nested2-2gen"] = ops.build(ctx, T, [c("d", ["md5"]), c("", ["xxh64"]), c("", ["c4"])], expect=[0, 0, 0])
     H["nested3"] = ops.build(ctx, T, [c("d/e", ["sha1"]), c("d", ["md5"]), c("", ["xxh64"])], expect=[0, 0, 0])
+    # a nested history below a hidden folder and in a folder with an unusual name
+    t2 = {"a.txt": b"content of a", ".backup": DIR, ".backup/card": DIR, ".backup/card/c.txt": b"content of c", "d": DIR,
+          "d/b.txt": b"content of b", "d/e": DIR, "d/e/c.txt": b"c", "sp ace #1": DIR, "sp ace #1/s.txt": b"s"}
+    H["nested-hidden"] = ops.build(ctx, t2, [c(".backup/card", ["md5"]), c("sp ace #1", ["md5"]), c("", ["xxh64"])], expect=[0, 0, 0])
     return H
 
 
@@ -141,7 +145,7 @@ def main(tier, seed):
     for c in cases[:: max(1, len(cases) // 5)]:
         eng.sample({"history": c["name"], "fault": c["faults"][0], "commands": [ops.label(o) for o in c["ops"][:3]] + ["..."]})
     cov = {"evaluations": evals, "distinct_nontrivial": nf, "exhaustive": True, "faults": nf, "histories": sorted(H),
-           "rule": "histories {flat 2 generations, nested 2 levels (2 generations in the parent), nested 3 levels}; for EVERY manifest "
+           "rule": "histories {flat 2 generations, nested 2 levels (2 generations in the parent), nested 3 levels, nested below a hidden folder and in a folder with blanks}; for EVERY manifest "
                    "listed in any chain: bit flip / byte insertion / byte deletion / truncation at positions {0, 1, last, 16 evenly "
                    "spaced} (thorough: a bit flip at every byte position, the others at 64 positions), appended newline, removal; "
                    "every content fault with the tampered file's mtime equal to and older than the chain file's (thorough: also newer); "
